@@ -78,6 +78,16 @@ func init() {
 			return err == nil, fmt.Sprint(err)
 		})
 	}
+	probes["O82"] = func() (bool, string) {
+		return guard(func() (bool, string) {
+			c, _ := ucfg.NewFrom(map[string]interface{}{"l": map[string]interface{}{"a": 1}})
+			to := struct {
+				L []int `config:"l,replace"`
+			}{L: []int{1, 2}}
+			err := c.Unpack(&to)
+			return err == nil, fmt.Sprint(err, " ", to.L)
+		})
+	}
 	probes["O81"] = func() (bool, string) {
 		return guard(func() (bool, string) {
 			c, _ := ucfg.NewFrom([]interface{}{10, "x", 30})
